@@ -824,6 +824,10 @@ func (loc *Location) GetParents(ctx *Context) ([]string, error) {
 		Log(WARN, ctx, "Location.GetParents", "location", loc.Name)
 		return nil, fmt.Errorf("Location is disabled.")
 	}
+	// The parents are a property of the location, kept as a fact.
+	if err := loc.CheckRead(ctx); err != nil {
+		return nil, err
+	}
 
 	Metric(ctx, "GetParents", "location", loc.Name)
 
